@@ -58,6 +58,7 @@ def run(ck, progs):
     ck.rule("C11.8", "the share of total_sent[] a thread zeroes after a GVT message count stays inside the array, for every rank count up to MAX_NODES")
     ck.rule("C11.9", "rs_realloc copies min(requested size, old block size) bytes out of a block it moves, and the old block size reported by "
                      "buddy_best_effort_realloc is 1 << the order found by climbing the allocation tree from the block")
+    ck.rule("C11.12", "fossil_lp_collect reads the history only after testing that it is not empty (no read before the array)")
     ck.rule("C11.11", "a worker releases its LPs' histories and its queue only after a thread barrier that follows the main loop (until then another "
                       "thread can still roll back and touch those messages)")
     ck.rule("C11.10", "a history element (a tagged word) is dereferenced, directly or by a callee, only when both tag bits were tested clear on the "
@@ -67,6 +68,8 @@ def run(ck, progs):
         _capacity(ck, P, cfg)
         rules_msg.check_entry_derefs(ck, P, "C11.10")
         rules_msg.check_teardown_after_barrier(ck, P, "C11.11")
+        from .. import rules_fossil
+        rules_fossil.check_nonempty_before_last(ck, P, "C11.12")
         rules_cover.check_partition_clear(ck, P, None, "C11.8")
         rules_buddy.check_realloc_copy(ck, P, "C11.9")
         rules_array.check(ck, P, "C11.7")
